@@ -13,9 +13,9 @@ func init() {
 // sources built from symbolic pieces and the code's own string constants
 // (suffixes, hosts, separators found in FullSource's current SSA)
 func vpH_c17_dictionary() {
-	s := vpStrUpTo(2, vpSrcClass) + vpStrConst("FullSource")
+	s := vpStrUpTo(2, vpSrcClass) + vpStrConst("*plugin.go")
 	if vpParam("words") > 1 && vpBool() {
-		s += vpStrUpTo(1, vpSrcClass) + vpStrConst("FullSource")
+		s += vpStrUpTo(1, vpSrcClass) + vpStrConst("*plugin.go")
 	}
 	s += vpStrUpTo(2, vpSrcClass)
 	vpCheckFullSource(s)
